@@ -245,6 +245,9 @@ def classify(b, h, us, body):
     ctr = _counter(b, h, us, body, dom, assigned)
     if ctr is not None:
         return "counter", True, ctr
+    bs = _bisection(b, h, us, body, dom)
+    if bs is not None:
+        return "bisection", True, bs
     if best is not None:
         return "iterator:" + best[0], False, best[1][:100]
     calls = sorted({b.blocks[c].term.callee.split("::")[-1] for c in body
@@ -336,6 +339,118 @@ def _step_at_least_one(b, op):
     except Exception:
         return False
     return r is not None and r[0] >= 1
+
+
+def _expr(b, op, body, depth=0):
+    """small expression tree of an operand through single-definition temporaries defined inside the loop:
+    ('v', local) | ('k', n) | (op, a, b)"""
+    if op[0] == "k":
+        c = op_const(op)
+        return ("k", c[1]) if c and c[1] is not None else ("?",)
+    p = op[1]
+    if len(p[1]) == 1 and isinstance(p[1][0], list) and p[1][0][0] == "f" and p[1][0][1] == 0:
+        sd = b.single_def(p[0])
+        if sd is not None and not isinstance(sd[2], Term) and sd[2][0] == "bin" and sd[2][1].endswith("WithOverflow"):
+            return (sd[2][1][:-len("WithOverflow")], _expr(b, sd[2][2], body, depth + 1), _expr(b, sd[2][3], body, depth + 1))
+        return ("?",)
+    if p[1]:
+        return ("?",)
+    l = p[0]
+    sd = b.single_def(l)
+    if sd is None or isinstance(sd[2], Term) or depth > 8 or sd[0] not in body:
+        return ("v", l)
+    rv = sd[2]
+    if rv[0] == "use":
+        return _expr(b, rv[1], body, depth + 1)
+    if rv[0] == "bin" and rv[1] in ("Add", "Sub", "Div", "Shr", "AddUnchecked", "SubUnchecked"):
+        return (rv[1].replace("Unchecked", ""), _expr(b, rv[2], body, depth + 1), _expr(b, rv[3], body, depth + 1))
+    return ("v", l)
+
+
+def _is_midpoint(e, lo, hi):
+    """(lo + hi) / 2, (lo + hi) >> 1, lo + (hi - lo) / 2, lo + ((hi - lo) >> 1): all lie in [lo, hi) when lo < hi"""
+    def half(x):
+        return x[0] in ("Div", "Shr") and x[2] == ("k", 2 if x[0] == "Div" else 1) and x[1]
+    h = half(e) if len(e) == 3 else None
+    if h:
+        return h[0] == "Add" and {h[1], h[2]} == {("v", lo), ("v", hi)}
+    if len(e) == 3 and e[0] == "Add":
+        for a, c in ((e[1], e[2]), (e[2], e[1])):
+            hh = half(c) if len(c) == 3 else None
+            if a == ("v", lo) and hh and hh == ("Sub", ("v", hi), ("v", lo)):
+                return True
+    return False
+
+
+def _bisection(b, h, us, body, dom):
+    """`while lo < hi { mid = midpoint(lo, hi); .. lo = mid + k | hi = mid .. }` with one of the two assigned on every trip"""
+    defs_in = {}
+    for bb in body:
+        for j, st in enumerate(b.blocks[bb].stmts):
+            if st[0] == "A" and not st[1][1]:
+                defs_in.setdefault(st[1][0], []).append((bb, j, st[2]))
+        t = b.blocks[bb].term
+        if t.kind == "call" and not t.dest[1]:
+            defs_in.setdefault(t.dest[0], []).append((bb, -1, t))
+    for s in sorted(body):
+        t = b.blocks[s].term
+        if t.kind != "switch" or not all(s in dom[u] for u in us):
+            continue
+        dl = op_local(t.d[1])
+        if dl is None:
+            continue
+        cmp_rv = _def_in_block_chain(b, dl, body)
+        if cmp_rv is None or cmp_rv[0] != "bin" or cmp_rv[1] not in ("Lt", "Gt"):
+            continue
+        xl, yl = op_local(cmp_rv[2]), op_local(cmp_rv[3])
+        if xl is None or yl is None:
+            continue
+        lo, hi = (_copy_source(b, xl), _copy_source(b, yl)) if cmp_rv[1] == "Lt" else (_copy_source(b, yl), _copy_source(b, xl))
+        arms = dict((int(val), tgt) for val, tgt in t.d[2])
+        if 0 not in arms or arms[0] in body or t.d[3] not in body:
+            continue            # must leave the loop when `lo < hi` is false
+        if lo not in defs_in or hi not in defs_in or lo == hi:
+            continue
+        ok = True
+        blocks = set()
+        for v, want in ((lo, "lo"), (hi, "hi")):
+            for bb, j, rv in defs_in[v]:
+                if isinstance(rv, Term):
+                    ok = False
+                    break
+                blocks.add(bb)
+                e = _expr(b, ["c", [v, []]], body) if False else None
+                # the assigned value
+                if rv[0] != "use":
+                    ok = False
+                    break
+                e = _expr(b, rv[1], body)
+                if want == "hi":
+                    if not _is_midpoint(e, lo, hi):
+                        ok = False
+                else:
+                    if not (len(e) == 3 and e[0] == "Add" and ((_is_midpoint(e[1], lo, hi) and e[2][0] == "k" and e[2][1] >= 1)
+                                                                or (_is_midpoint(e[2], lo, hi) and e[1][0] == "k" and e[1][1] >= 1))):
+                        ok = False
+                if not ok:
+                    break
+            if not ok:
+                break
+        if not ok or _mut_borrowed_in(b, lo, body) or _mut_borrowed_in(b, hi, body):
+            continue
+        # every trip assigns one of them: without the assigning blocks no back edge is reachable from the header
+        seen = {h} if h not in blocks else set()
+        st = list(seen)
+        while st:
+            x = st.pop()
+            for y in b.blocks[x].term.targets:
+                if y in body and y not in seen and y not in blocks and y != h:
+                    seen.add(y)
+                    st.append(y)
+        if any(u in seen for u in us):
+            continue
+        return f"bisection: the loop runs while _{lo} < _{hi} and every trip sets _{lo} = mid + k or _{hi} = mid, mid a midpoint of the two"
+    return None
 
 
 def _step_of(b, v, rv, body):
